@@ -163,11 +163,22 @@ def replay(case):
 
 
 def words(n_iters, calls):
-    """All interleavings of `calls` next() calls per iterator (as tuples of iterator ids)."""
-    base = []
-    for i in range(n_iters):
-        base += [i] * calls
-    return sorted(set(itertools.permutations(base)))
+    """All interleavings of `calls` next() calls per iterator (tuples of iterator ids): multiset permutations."""
+    out = []
+
+    def rec(prefix, left):
+        if not any(left):
+            out.append(tuple(prefix))
+            return
+        for i in range(n_iters):
+            if left[i]:
+                left[i] -= 1
+                prefix.append(i)
+                rec(prefix, left)
+                prefix.pop()
+                left[i] += 1
+    rec([], [calls] * n_iters)
+    return out
 
 
 @st.composite
